@@ -197,8 +197,59 @@ func init() {
 			}
 			return true
 		})
-		biBody := src(fset, bi.Body)
-		visitedKeyIsUser := strings.Contains(biBody, "return key.GetUser()")
+		// the key function handed to the visited filter: its return statements in source order
+		var keyReturns []string
+		ast.Inspect(bi.Body, func(n ast.Node) bool {
+			fl, ok := n.(*ast.FuncLit)
+			if !ok {
+				return true
+			}
+			ast.Inspect(fl.Body, func(m ast.Node) bool {
+				if r, ok := m.(*ast.ReturnStmt); ok {
+					keyReturns = append(keyReturns, src(fset, r))
+				}
+				return true
+			})
+			return false
+		})
+		if len(keyReturns) == 0 {
+			return Result{}, fmt.Errorf("buildIterator: key function of the visited filter not found")
+		}
+		// who calls buildIterator and what is passed last (the visited set, or the computed relation as key suffix)
+		var biCallers []string
+		for _, d := range f.Decls {
+			fd, ok := d.(*ast.FuncDecl)
+			if !ok || fd.Body == nil {
+				continue
+			}
+			ast.Inspect(fd.Body, func(n ast.Node) bool {
+				ce, ok := n.(*ast.CallExpr)
+				if !ok || src(fset, ce.Fun) != "r.buildIterator" || len(ce.Args) == 0 {
+					return true
+				}
+				biCallers = append(biCallers, fd.Name.Name+":"+src(fset, ce.Args[len(ce.Args)-1]))
+				return true
+			})
+		}
+		// the recursive strategy builds its own filter chain
+		fsetR, fR, err := parseFile(repo, "internal/check/recursive.go")
+		if err != nil {
+			return Result{}, err
+		}
+		btm, err := fn(fR, "Recursive", "buildTupleMapperForID")
+		if err != nil {
+			return Result{}, err
+		}
+		var recFilterOrder []string
+		ast.Inspect(btm.Body, func(n ast.Node) bool {
+			if ce, ok := n.(*ast.CallExpr); ok {
+				s := src(fsetR, ce.Fun)
+				if s == "BuildUniqueTupleKeyFilter" || s == "BuildConditionTupleKeyFilter" || s == "iterator.Concat" {
+					recFilterOrder = append(recFilterOrder, s)
+				}
+			}
+			return true
+		})
 		ic, err := fn(f, "Resolver", "isCached")
 		if err != nil {
 			return Result{}, err
@@ -500,7 +551,9 @@ func init() {
 		w("aliasConds", "usersetAliasesTargetRelation", aliasConds)
 		w("ttuForUserConds", "rewriteContainsTTUForUser", ttuUConds)
 		w("errorTexts", "error sentinels of internal/check", consts)
-		sb.WriteString("def visitedKeyIsTupleUser : Bool := " + b(visitedKeyIsUser) + "\n")
+		w("visitedKeyReturns", "return statements of the key function of the visited filter in buildIterator", keyReturns)
+		w("buildIteratorCallers", "callers of buildIterator with their last argument (visited set, or the key suffix)", biCallers)
+		w("recursiveMapperCalls", "Recursive.buildTupleMapperForID: Concat / visited filter / condition filter in the order applied", recFilterOrder)
 		sb.WriteString("def visitedFilterIsLoadOrStore : Bool := " + b(visitedLoadOrStore) + "\n")
 		sb.WriteString("\nend OpenFGAVerif.Gen.CheckV2\n")
 		return Result{Lean: sb.String(), Summary: map[string]interface{}{
